@@ -29,6 +29,11 @@ CLAIMED = {
         "level": "Generated images (clean, noisy, rescaled, pure noise, smooth, self-render) x candidates of every class and mode count x all grid families and periodicities x four intensity options; cost non-increase, bounds, class, symmetry-fixed coordinates, periodic wrap, image immutability, fixed point.",
         "note": "scipy least_squares trusted; fixed-point clause only for candidates with an explicit positive width; independent deviation skipped on periodic cylindrical grids (py-pde rendering does not wrap z).",
     },
+    "C05": {
+        "technique": _T + "; render/locate+refine round trip with a recovery oracle (position, radius, width to 1e-4)",
+        "level": "Generated resolvable diffuse droplets and well-separated emulsions on all grid families (Cartesian dims 1-3 with every periodicity mask, mild anisotropy, 3.5 decades of spacing; polar; spherical; cylindrical), five threshold rules, four intensity options; one-to-one matching under the minimal-image metric.",
+        "note": "Bounded to radius 3-8 cells / width 1-2 cells as stated; gap >= 10 widths for emulsions; 3-D cases single droplet.",
+    },
     "C06": {
         "technique": "exhaustive enumeration of lattice histories + Hypothesis-generated time courses; invariant over the history (multiset partition, input snapshot)",
         "level": "All 3-frame histories over every subset of a 4-site (thorough 5-site) 1-D lattice x methods x cut-offs x {no grid, periodic}; generated time courses of 0-6 (10) frames, any droplet class, dims 1-3, three placement modes, all cut-offs; partition invariant, gap-free/at-most-once under the stated premise, input unmodified.",
